@@ -46,6 +46,14 @@ def gen_plan(rng, opts=None):
         for i in range(rng.randint(66, 140)):
             ops.append(rng.choice([["purge", 0, f"t{i}"], ["purge", 0, f"t{i}"], ["tx", 0, f"t{i}"]]) if n > 1 else ["purge", 0, f"t{i}"])
         stall = dict(host=0, at_op=rng.randint(0, 4), ms=rng.choice([300, 700, 1500]))
+    if o.get("bad_frames"):
+        # a malformed frame sequence arrives at an executor right behind well-formed commands, while the executor is descheduled, so
+        # that one receive round drains them together: the commands were acknowledged - they must be handled, or the executor must fail
+        h = rng.randrange(n)
+        at = rng.randint(0, len(ops))
+        run_ = [["purge", h, f"b{i}"] for i in range(rng.randint(1, 3))]
+        ops[at:at] = run_ + [["bad", h, rng.choice(["syn_only", "double_syn", "extra_frame", "empty", "plain_extra"])]]
+        stall = dict(host=h, at_op=at, ms=rng.choice([100, 300]))
     net = dict(lat_lo=50_000, lat_hi=rng.choice([50_000, 2_000_000, 300_000_000]), drop=0, dup=0, max_consec=None)
     if o["lossy"]:
         net.update(drop=rng.choice([0, 5, 15, 30, 45]), dup=rng.choice([0, 5, 15, 30]), max_consec=rng.choice([2, 4, None]))
@@ -341,6 +349,18 @@ def _run_traffic(plan, ch, want_log):
                     b.transmit(DatasetId(op[2], "0"), f"h{op[1]}", f"h{(op[1] + 1) % n}")
                 elif op[0] == "purge":
                     b.purge(f"h{op[1]}", DatasetId(op[2], "0"))
+                elif op[0] == "bad":
+                    import zmq
+                    from cascade.executor.msg import Syn
+                    from cascade.executor.serde import ser_message
+                    raw = zmq.Context().socket(zmq.PUSH)
+                    raw.connect(f"tcp://localhost:{12001 + 10 * op[1]}")
+                    syn = ser_message(Syn(idx=900_000 + oi, addr=CTRL))
+                    msg = ser_message(DatasetPurge(ds=DatasetId(f"bad{oi}", "0")))
+                    raw.send_multipart({"syn_only": [syn], "double_syn": [syn, syn, msg], "extra_frame": [syn, msg, b"extra"], "empty": [],
+                                        "plain_extra": [msg, b"extra"]}[op[2]])
+                    K.fire("malformed:" + op[2])
+                    result["bad_sent"] = result.get("bad_sent", 0) + 1
                 elif op[0] == "wait":
                     # the real controller is (nearly) always inside recv_events, which is also where acks are sent and retries
                     # happen; a scripted controller that sleeps for long starves its peers' retry budgets.  So: wait for an event
@@ -447,7 +467,7 @@ def _judge_traffic(plan, K, mon, result, pstate, end, want_log):
             viol.append(("C06", "gave_up_under_fair_loss", early[:2], dict(lossy=lossy)))
         elif mon.gaveup and not early:
             K.probe("give_up_after_peer_teardown")
-        if verdict == "raised" and not lossy and not part:
+        if verdict == "raised" and not lossy and not part and not result.get("bad_sent"):
             viol.append(("C06", "raised_without_faults", result.get("error"), {}))
     if part and pstate["since"] is not None:
         # bounded give-up: a sender with traffic into the partition raises within retries x grace + slack
